@@ -156,6 +156,50 @@ func Unhex(s string) ([]byte, bool) {
 	return b, true
 }
 
+// StripExpect splits off a trailing word "=<published value>" (vector replay): the harness
+// compares its own output with the value, the model ignores the word.
+func StripExpect(f []string) ([]string, string) {
+	if n := len(f); n > 1 && strings.HasPrefix(f[n-1], "=") {
+		return f[:n-1], strings.ToLower(f[n-1][1:])
+	}
+	return f, ""
+}
+
+// Script handles a line `new ; op ; op ; …` (a whole transcript as one indivisible case): it runs
+// the operations in order through exec — with the "=value" convention of StripExpect — and joins
+// their outputs with ";".  ok is false when the line is not of that form.
+func Script(f []string, exec func([]string) string) (res string, ok bool) {
+	if len(f) < 2 || f[0] != "new" || f[1] != ";" {
+		return "", false
+	}
+	var outs []string
+	var cur []string
+	flush := func() {
+		outs = append(outs, ExecExpect(cur, exec))
+		cur = nil
+	}
+	for _, w := range f[2:] {
+		if w == ";" {
+			flush()
+		} else {
+			cur = append(cur, w)
+		}
+	}
+	flush()
+	return strings.Join(outs, ";"), true
+}
+
+// ExecExpect runs one operation; if it carries "=value" and the output differs, the output gets
+// the suffix " !vector".
+func ExecExpect(f []string, exec func([]string) string) string {
+	f, expect := StripExpect(f)
+	res := exec(f)
+	if expect != "" && res != "bad-op" && res != expect {
+		res += " !vector"
+	}
+	return res
+}
+
 // guard runs f and maps a panic to the observable "panic".
 func Guard(f func() string) (res string) {
 	defer func() {
